@@ -89,7 +89,22 @@ public:
 		} else if (op == "mem") {            // mem NAME depth width
 			mems.push_back(std::make_unique<Memory<UInt>>(std::stoull(t[2]), UInt(BitWidth(std::stoull(t[3])))));
 			mems.back()->setName(t[1]);
-			if (t.size() > 4 && t[4] == "zero") mems.back()->initZero();
+			// options (same spelling as harness/netdump.h):  zero | noconf | exact | fill=<depth*width bits MSB first, 0/1/X; word 0 = least
+			// significant bits> | lat=<n> (read latency hint: the n registers behind a read port become the memory's read latency registers)
+			for (size_t i = 4; i < t.size(); i++) {
+				auto &m = *mems.back();
+				if (t[i] == "zero") m.initZero();
+				else if (t[i] == "noconf") m.noConflicts();
+				else if (t[i] == "exact") m.undefinedReadAddrBehavior(hlim::Node_Memory::UndefinedReadAddrBehavior::EXACT);
+				else if (t[i].rfind("lat=", 0) == 0) m.setType(MemType::MEDIUM, std::stoull(t[i].substr(4)));
+				else if (t[i].rfind("fill=", 0) == 0) {
+					std::string bits = t[i].substr(5);
+					if (bits.size() != std::stoull(t[2]) * std::stoull(t[3])) throw std::runtime_error("fill= length");
+					sim::DefaultBitVectorState st; st.resize(bits.size());
+					for (size_t k = 0; k < bits.size(); k++) { char ch = bits[bits.size() - 1 - k]; st.set(sim::DefaultConfig::DEFINED, k, ch == '0' || ch == '1'); st.set(sim::DefaultConfig::VALUE, k, ch == '1'); }
+					m.fillPowerOnState(st);
+				} else throw std::runtime_error("mem option " + t[i]);
+			}
 			memIdx[t[1]] = mems.size() - 1;
 		} else if (op == "memwrite") { // memwrite MEM ADDR DATA [COND]
 			auto &m = *mems.at(memIdx.at(t[1]));
